@@ -321,7 +321,7 @@ mod imp {
     }
 
     /// C17 (xen): access histories (the C04 operation set) over emulated regions.
-    fn run_c17_history(t: &mut Tape, cx: &mut Cx) -> Result<(), String> {
+    pub fn run_c17_history(t: &mut Tape, cx: &mut Cx) -> Result<(), String> {
         let kind = gen_kind(t);
         let size = match t.below(5) {
             0 => PS,
@@ -373,7 +373,7 @@ mod imp {
             }
             Ok(())
         };
-        let r = history_raw(&*xr.region, &XRaw(&xr), size, &after_step, t, cx);
+        let r = crate::p04_container::history_alt(&*xr.region, Some(&xr.region), &XRaw(&xr), size, &after_step, t, cx);
         if kind == Kind::GrantOnDemand && size > PS {
             cx.nt("on_demand_multi_page");
         }
